@@ -17,14 +17,14 @@ import (
 // zzNopLogger: logging has no effect on state.
 type zzNopLogger struct{}
 
-func (zzNopLogger) Debug(string, ...interface{})    {}
-func (zzNopLogger) Info(string, ...interface{})     {}
-func (zzNopLogger) Error(string, ...interface{})    {}
-func (zzNopLogger) Debugf(string, ...interface{})   {}
-func (zzNopLogger) Infof(string, ...interface{})    {}
-func (zzNopLogger) Errorf(string, ...interface{})   {}
-func (zzNopLogger) Warning(string, ...interface{})  {}
-func (zzNopLogger) Warningf(string, ...interface{}) {}
+func (zzNopLogger) Debug(string, ...interface{})     {}
+func (zzNopLogger) Info(string, ...interface{})      {}
+func (zzNopLogger) Error(string, ...interface{})     {}
+func (zzNopLogger) Debugf(string, ...interface{})    {}
+func (zzNopLogger) Infof(string, ...interface{})     {}
+func (zzNopLogger) Errorf(string, ...interface{})    {}
+func (zzNopLogger) Warning(string, ...interface{})   {}
+func (zzNopLogger) Warningf(string, ...interface{})  {}
 func (l zzNopLogger) With(...interface{}) log.Logger { return l }
 
 // Harness clock. Under the engine `//zz:stub time.Now zzStubNow` redirects time.Now to zzStubNow,
